@@ -28,6 +28,7 @@ type E3Workload struct {
 	PreState string `json:"pre_state"` // "empty", "dir-exists", "crashed-save-leftover"
 	Double     bool `json:"double"` // two failing Checks of the same test in one process
 	TmpOtherFS bool `json:"tmpdir_other_fs"` // the child's TMPDIR lives on another file system (tmpfs)
+	NoDraw     bool `json:"no_draw"`         // the property draws nothing (with Lines == 0: empty output AND empty bitstream)
 }
 
 // normal: combinations that are not supported together are reduced to the simpler one.
@@ -501,8 +502,14 @@ func e3GenWorkload(seed uint64, idx int, tier string) E3Workload {
 		lines = next(maxLines + 1)
 	}
 	kinds := []int{1, 6, 4, 10} // Fatalf, panic(string), Errorf, nil-map-write
-	return E3Workload{Name: names[next(len(names))], Lines: lines, LineLen: 1 + next(200), Words: []int{0, 1, 8, 64}[next(4)], Seed: 1 + uint64(next(1<<30)),
-		FailKind: kinds[next(len(kinds))], PreState: []string{"empty", "dir-exists", "crashed-save-leftover"}[next(3)], TmpOtherFS: next(4) == 0, Double: next(5) == 0}.normal()
+	wl := E3Workload{Name: names[next(len(names))], Lines: lines, LineLen: 1 + next(200), Words: []int{0, 1, 8, 64}[next(4)], Seed: 1 + uint64(next(1<<30)),
+		FailKind: kinds[next(len(kinds))], PreState: []string{"empty", "dir-exists", "crashed-save-leftover"}[next(3)], TmpOtherFS: next(4) == 0, Double: next(5) == 0,
+		NoDraw: idx%6 == 0 || next(8) == 0}
+	if wl.NoDraw && wl.Lines == 0 {
+		// nothing drawn and nothing logged (Fatalf/Errorf log their message): the fail file has neither output nor data
+		wl.FailKind = []int{6, 10}[next(2)]
+	}
+	return wl.normal()
 }
 
 type e3Replay struct {
